@@ -143,8 +143,9 @@ def gen_graph(rng, nnodes, tier_k=64):
         later = nodes[i:]
         if not later or rng.random() < 0.5:
             continue
-        for _ in range(rng.choice([1, 1, 2])):
-            tgt = rng.choice(later)
+        later_tuples = [x for x in later if isinstance(x, tuple)]
+        for _ in range(rng.choice([1, 1, 2, 3])):
+            tgt = rng.choice(later_tuples) if later_tuples and rng.random() < 0.5 else rng.choice(later)
             if isinstance(nd, list):
                 nd.insert(rng.randrange(0, len(nd) + 1), tgt)
             elif isinstance(nd, dict):
@@ -597,6 +598,17 @@ def iso(a, b, fwd, bwd, on_path):
         if i == len(kids):
             return None, fwd, bwd
         last = "no match"
+        if pair and children_of(kids[i][0])[0] == "atom":
+            # atomic key: its partner is the entry with the equal key (keys are unique), no search
+            js = [j for j, y in enumerate(kb) if j not in used and atom_equal(kids[i][0], y[0]) is None]
+            if not js:
+                return "dict key %r (%s) did not arrive" % (str(kids[i][0])[:40], type(kids[i][0]).__name__), fwd, bwd
+            j = js[0]
+            f2, b2 = dict(fwd), dict(bwd)
+            r = iso(kids[i][1], kb[j][1], f2, b2, on_path)
+            if r:
+                return "under dict key %r: %s" % (str(kids[i][0])[:40], r), fwd, bwd
+            return assign(i + 1, used | {j}, f2, b2)
         for j, y in enumerate(kb):
             if j in used:
                 continue
@@ -712,6 +724,60 @@ def deferred_hazards(terms, n):
     for t in terms:
         n, _ = walk(t, n)
     return hazards
+
+
+def tuple_ref_after_dict_value_ref(terms, n):
+    """a still-open tuple is referenced from a dict value and, later while it is still open, referenced again:
+    the second referrer is handed what DictUnslicer.update returned"""
+    hit = []
+
+    def walk(t, n, open_tuples, seen):
+        if t[0] in ("int", "float", "bytes"):
+            return n
+        if t[0] != "cont":
+            if t[0] == "ref" and t[1] in open_tuples and t[1] in seen:
+                hit.append(t[1])
+            return n + 1
+        me = n
+        n += 1
+        ot = open_tuples | {me} if t[1] == "tuple" else open_tuples
+        for i, c in enumerate(t[3]):
+            if c[0] == "ref" and c[1] in ot:
+                if c[1] in seen:
+                    hit.append(c[1])
+                if t[1] == "dict" and i % 2 == 1:
+                    seen.add(c[1])
+                n += 1
+            else:
+                n = walk(c, n, ot, seen)
+        return n
+    for t in terms:
+        n = walk(t, n, frozenset(), set())
+    return bool(hit)
+
+
+def has_deferred_tuple(terms, n):
+    """some tuple / frozenset directly contains a reference to a tuple / frozenset / Copyable that is still open: its
+    completion is deferred in the implementation; the model's theorems exclude these graphs (wf_at), the model itself
+    and the implementation are still compared on them"""
+    found = []
+
+    def walk(t, n, imm):
+        if t[0] in ("int", "float", "bytes"):
+            return n
+        if t[0] != "cont":
+            return n + 1
+        me = n
+        n += 1
+        imm2 = imm | {me} if t[1] in ("tuple", "frozen", "copy") else imm
+        if t[1] in ("tuple", "frozen") and any(c[0] == "ref" and c[1] in imm2 for c in t[3]):
+            found.append(me)
+        for c in t[3]:
+            n = walk(c, n, imm2)
+        return n
+    for t in terms:
+        n = walk(t, n, frozenset())
+    return bool(found)
 
 
 # ------------------------------------------------------------------ Broker pair: calls
